@@ -101,6 +101,11 @@ def check_C01(tier, seed, res, replay=None):
     res.add_samples([c for c in cases if nontrivial_pair(c)][:2] + cases[-1:])
     run_events(res, rd, "incl", cases)
     agreement_arm(res, rd, tier, seed)
+    # the same contract observed through the command-line tool (cli/operations.hh prepares operands and simulations)
+    import cli_arm
+    nt_cases = [c for c in cases if nontrivial_pair(c)]
+    rng.shuffle(nt_cases)
+    cli_arm.judge(res, rd, "incl", cli_arm.incl_events(nt_cases[:6000 if tier == "thorough" else 1200], rd), "TraceTA.tla")
     # Layer 0: the oracle itself, cross-checked against the naive tree semantics (never depends on the code)
     shards = list(range(64)) if tier == "thorough" else [(seed * 7 + i * 4) % 64 for i in range(16)]
     m = vlib.tlc_sharded_check("TAcheck.tla", "TAcheck.cfg", 64, sorted(set(shards)))
@@ -369,6 +374,10 @@ def check_C04(tier, seed, res, replay=None):
     res.add_samples([c for c in cases if nt(c)][:3])
     run_events(res, rd, "c04", cases)
     laws_arm(res, rd, tier, seed, "sim", per_quick=2000, per_thorough=5000)
+    import cli_arm
+    pick = [c for c in cases if nt(c) and "split" not in c and c.get("op") == "sim" and c["A"]["rules"]]
+    rng.shuffle(pick)
+    cli_arm.judge(res, rd, "sim", cli_arm.sim_events(pick[:8000 if tier == "thorough" else 1500], rd), "TraceTA.tla")
 
 
 # ---------------------------------------------------------------------------------------- C05
